@@ -11,7 +11,8 @@ it is NOW (after 686eb360: `IteratorPrefixWithStart` honours its prefix).
   F24a is repaired: its old witness is now an `example` of agreement.
 * `c20_full` (no restriction at all) is still REFUTED by the open findings:
   `c20_reverse_refuted` (F24b), `c20_nil_value_refuted` (F24c), `c20_set_alias_refuted` (F24d),
-  `c20_get_alias_refuted` (F24e); `c20_full_refuted` uses the nil-value witness.
+  `c20_get_alias_refuted` (F24e), `c20_batch_alias_refuted` (F24f); `c20_full_refuted` uses the
+  nil-value witness.
 -/
 import BytomModel.Lemmas.KVRefine
 
@@ -41,6 +42,7 @@ theorem spec_sorted_invariant (s : Spec) (hs : SSorted s) (op : Op) : SSorted (S
   | iterWS p st rev => exact hs
   | setMut k v => exact set_sorted s k v hs
   | getMut k => exact hs
+  | batchMut k v => exact set_sorted _ k v (delete_sorted _ _ (set_sorted s k v hs))
 
 theorem get_set (s : Spec) (k k' v : Bytes) :
     Spec.get (Spec.set s k v) k' = if k' = k then some v else Spec.get s k' := spec_get_set s k k' v
@@ -90,6 +92,7 @@ def Allowed : Op → Prop
   | .iterWS _ st rev => rev = false ∨ st = none
   | .setMut _ _ => False
   | .getMut _ => False
+  | .batchMut _ _ => False
 
 theorem batch_refines {m s} (r : R m s) (ops : List BOp) (h : ∀ b ∈ ops, AllowedB b) :
     R (Mem.batch m ops) (Spec.batch s ops) := by
@@ -136,6 +139,7 @@ theorem step_refines {m s} (r : R m s) (op : Op) (h : Allowed op) :
   | iterWS p st rev => exact ⟨r, iterWS_agree r p st rev h⟩
   | setMut k v => exact absurd h id
   | getMut k => exact absurd h id
+  | batchMut k v => exact absurd h id
 
 theorem run_refines {m s} (r : R m s) (ops : List Op) (h : ∀ op ∈ ops, Allowed op) :
     Mem.run m ops = Spec.run s ops := by
@@ -196,5 +200,16 @@ theorem c20_set_alias_refuted :
 theorem c20_get_alias_refuted :
     Mem.run [] [.set [0x61] (some [1, 2]), .getMut [0x61]] ≠ Spec.run [] [.set [0x61] (some [1, 2]), .getMut [0x61]] := by
   decide
+
+/-- F24f: a MemDB batch keeps the caller's key and value slices until `Write` -/
+theorem c20_batch_alias_refuted :
+    Mem.run [] [.batchMut [0x61] [1, 2]] ≠ Spec.run [] [.batchMut [0x61] [1, 2]] := by decide
+
+/-- an EMPTY (non-nil) value is a present key in both models: `Get` answers `some []`, prefix
+    iteration lists it with the empty value (what a copy-through-`append(nil, …)` would break) -/
+example : Mem.run [] [.set [0x61] (some []), .get [0x61], .iterPrefix [0x61]]
+    = [.ok, .val (some []), .seq none [([0x61], some [])]] ∧
+    Spec.run [] [.set [0x61] (some []), .get [0x61], .iterPrefix [0x61]]
+    = [.ok, .val (some []), .seq none [([0x61], some [])]] := by decide
 
 end BytomModel.Props.C20
